@@ -37,10 +37,13 @@ def unitary_class(rng, n):
     """(class name, matrix, valid?) valid: True / False (must raise) ."""
     classes = ["haar", "haar", "haar", "real_orthogonal", "permutation", "identity", "diag_phases", "block_diag",
                "exact_zeros", "antiidentity", "near_valid", "perm_phases", "invalid_nonunitary", "invalid_scaled",
-               "float_orthogonal", "float_signs", "float_signed_permutation"]
+               "float_orthogonal", "float_signs", "float_signed_permutation", "int_signed_permutation"]
     if n == 1:
-        classes = ["haar", "identity", "diag_phases", "invalid_scaled", "float_signs"]
+        classes = ["haar", "identity", "diag_phases", "invalid_scaled", "float_signs", "int_signed_permutation"]
     c = str(rng.choice(classes))
+    if c == "int_signed_permutation":
+        # integer *dtype* (a hand-typed permutation / sign matrix)
+        return c, (np.eye(n, dtype=int)[rng.permutation(n)] * rng.choice([-1, 1], n)).astype(int), True
     # real *dtype* inputs (users pass np.eye / orthogonal matrices as float arrays)
     if c == "float_orthogonal":
         return c, np.asarray(real_orth(rng, n), dtype=float), True
